@@ -247,8 +247,9 @@ class C04(PropCheck):
             def show(st):
                 fr = []
                 for f in st.frames:
-                    if (f.pyframe.f_globals.get("__name__") or "").startswith("stackscope.") and not \
-                            (f.pyframe.f_globals.get("__name__") or "").startswith("stackscope._tests"):
+                    nm = f.pyframe.f_globals.get("__name__")
+                    nm = nm if isinstance(nm, str) else ""
+                    if nm.startswith("stackscope.") and not nm.startswith("stackscope._tests"):
                         probs.append("the result contains one of stackscope's own frames")
                     fr.append(idx.get(id(f.pyframe), -1))
                 s = "frames=[" + ",".join(str(x) for x in fr) + "]"
@@ -306,8 +307,9 @@ class C04(PropCheck):
                         probs.append(f"extract_until({i}, limit=frame {lo}) gave {fr}, expected {spec(lo, i, None)}")
                     f = f.f_back
             # callers living in modules whose name merely resembles stackscope's: their frames are the user's, not the library's
-            for modname in ("stackscope_contrib.dump", "stackscopex", "contrib_for_stackscope"):
-                ns = {"__name__": modname}
+            # ... or in a namespace without a usable name at all (exec'd rule code: no __name__ key, or a blanked / non-string one)
+            for modname in ("stackscope_contrib.dump", "stackscopex", "contrib_for_stackscope", "<nameless>", None, 5):
+                ns = {} if modname == "<nameless>" else {"__name__": modname}
                 exec("def call(fn, *a, **k):\n    return fn(*a, **k)\n", ns)
                 for o in (None, first_mine):
                     st = ns["call"](stackscope.extract_since, None if o is None else full[o], with_contexts=False)
